@@ -253,6 +253,11 @@ impl RWorld {
                 self.add_fs(us(id), obj);
                 "ok".into()
             }
+            ["fs", id, "ghost", l, dir, name] => {
+                let obj = self.leaves[us(l)].clone();
+                self.add_fs(us(id), Arc::new(crate::wrappers::GhostFs { inner: obj, dir: dec_str(dir), name: dec_str(name) }));
+                "ok".into()
+            }
             ["fs", id, "alt", inner, p] => {
                 let r = self.root(us(inner)).expect("bad fs id").join(dec_str(p)).expect("bad altroot path");
                 self.add_fs(us(id), Arc::new(AltrootFS::new(r)));
